@@ -152,6 +152,18 @@ def run(rep: common.Report, tier: str, seed: int, replay=None) -> int:
             Ac = sum(np.asarray(v) for k_, v in Agot.items() if k_ != "applied")
             if np.max(np.abs(Ac[:, :2] - Aref)) > 1e-8 * float(np.max(np.abs(Aref)) + 1e-300):
                 rep.violation("vector potential from the currents differs from the direct Coulomb-kernel sum (SI)", case)
+            # the applied part, in SI and in the default units, against the applied-potential parameter evaluated at the
+            # same points (its gauge is centred on the set of points it is given) and converted by hand
+            f_si = ureg(f"{fu} * {dev.length_units}").to("T * m").magnitude
+            Aapp_ref = np.asarray(sol.applied_vector_potential(P[:, 0], P[:, 1], P[:, 2]))[:, :2] * f_si
+            if np.max(np.abs(np.asarray(Agot["applied"])[:, :2] - Aapp_ref)) > 1e-9 * float(np.max(np.abs(Aapp_ref))):
+                rep.violation("the applied part of vector_potential_at_position(units='T * m') is not the applied potential in SI", case)
+            f_def = ureg(f"{fu} * {dev.length_units}").to("T * m").magnitude
+            if np.max(np.abs(np.asarray(Ap["applied"])[:, :2] * f_def - Aapp_ref)) > 1e-9 * float(np.max(np.abs(Aapp_ref))):
+                rep.violation("the applied part of vector_potential_at_position (default units) is not the applied potential", case)
+            Atot_si = sol.vector_potential_at_position(P, units="T * m", return_sum=True, with_units=False)
+            if np.max(np.abs(Atot_si[:, :2] - (Aref + Aapp_ref))) > 1e-8 * float(np.max(np.abs(Aref + Aapp_ref)) + 1e-300):
+                rep.violation("total vector potential (SI) is not applied + Coulomb-kernel sum of the stored currents", case)
             rep.count(1)
             rep.nontrivial(("solution", fu, cu))
     # ---------- H <-> B conversions round-trip ----------
